@@ -308,6 +308,8 @@ func searchCases(seed uint64, round, n, total int) []tcase {
 var stage2Modelled = []string{"avc.ParseSPSNALUnit", "avc.ParsePPSNALUnit", "avc.ParseSliceHeader", "avc.ParsePSAndSlice",
 	"avc.GetSliceTypeFromNALU", "avc.ParseSEINalu", "hevc.ParseSEINalu",
 	"avc.ParseSPSAndSEI", "avc.DecConfRecAndSlice", // pipelines composed from the models by the driver
+	// HEVC parsers (C16HevcParseModel.v); the context-dependent ones run as "#m" targets, see hevcmodel.go
+	"hevc.ParseSPSNALUnit", "hevc.ParsePPSNALUnit", "hevc.ParseSPSAndSEI", "hevc.DecConfRecAndSlice",
 	// models of C17 / C18 / C14 through the partial-operation wrappers of C16AuxModel.v
 	"sei.ExtractSEIData", "sei.DecodeTimeCodeSEI", "sei.DecodePicTimingAvcSEIHRD",
 	"sei.DecodeMasteringDisplayColourVolumeSEI", "sei.DecodeContentLightLevelInformationSEI",
